@@ -417,7 +417,7 @@ func runC41(t *testing.T, tape *simrt.Tape, env dst.Env) *simrt.Outcome {
 		sendsAfter := map[int64]int{}   // msg id -> transmissions after its last rejection
 		expectSalt := map[int64]int64{} // msg id -> salt the next transmission must carry
 		const lookAhead = 300           // seconds (the statement's look-ahead window)
-		prevSalt, toldAt := int64(1), time.Duration(0)
+		prevSalt, toldAt, prevMsgAt := int64(1), time.Duration(0), time.Duration(0)
 		type toldRec struct {
 			salt  int64
 			until time.Duration // simulated time at which a newer salt was told
@@ -442,9 +442,10 @@ func runC41(t *testing.T, tape *simrt.Tape, env dst.Env) *simrt.Outcome {
 			// still carries the one before: allowed for a second of simulated
 			// time, processing itself takes none)
 			ok := m.salt == lastTold
+			graceOnly := false
 			for _, t := range recentTold {
-				if m.salt == t.salt && simrt.Now()-t.until <= time.Second {
-					ok = true
+				if !ok && m.salt == t.salt && simrt.Now()-t.until <= time.Second {
+					ok, graceOnly = true, true
 				}
 			}
 			// the client chose the salt at some client-clock time between the
@@ -469,13 +470,24 @@ func runC41(t *testing.T, tape *simrt.Tape, env dst.Env) *simrt.Outcome {
 				if f.salt == m.salt {
 					known = true
 					ok = ok || valid
+					if valid {
+						graceOnly = false
+					}
 				}
 			}
-			if !ok && !mustKnowValid && (m.salt == prevSalt || choosable[m.salt]) {
+			// "stays the one already in use" holds only while nothing new was told
+			// since that salt was last seen on the wire (a telling older than the
+			// grace second has been processed, and a told salt replaces the one in
+			// use); a message accepted only by that grace does not establish its
+			// salt as the one in use
+			stays := m.salt == prevSalt && (prevMsgAt > toldAt || toldAt == 0 || simrt.Now()-toldAt <= time.Second)
+			if !ok && !mustKnowValid && (stays || choosable[m.salt]) {
 				ok = true
 				simrt.Probe("C41.no-valid-salt-left")
 			}
-			prevSalt = m.salt
+			if !graceOnly {
+				prevSalt, prevMsgAt = m.salt, simrt.Now()
+			}
 			if !ok {
 				rule, sig := "C41.unknown-salt", "unknown-salt"
 				if known {
